@@ -24,6 +24,7 @@ def bad_line(rng, dl, cm, prev_entry):
         name = plain(rng.randrange(0, 5))
         junk = plain(rng.randrange(0, 4), b"[]") + bytes([rng.choice([c for c in grammar.TEXT if c not in cm and c != 34 and c != 93])])
         junk = junk.lstrip(b" \t") or b"x"
+        if rng.random() < 0.25: junk = bytes(rng.choice(b"\x80\xa7\xb5\xe9\xff") for _ in range(rng.randrange(1, 4)))      # bytes above 127 only
         return kind, ind + b"[" + name + b"]" + grammar.blanks(rng, 0, 2) + junk
     if kind == "empty":
         return kind, ind + b"[]" + grammar.blanks(rng, 0, 2)
@@ -46,7 +47,8 @@ def gen(rng, tier):
         prev_entry = bool(ls) and ls[-1][0] in ("K", "T")
         kind, bad = bad_line(rng, dl, cm, prev_entry)
         rest = gens.mutate_conventional(rng) if rng.random() < 0.7 else b""
-        content = e["bytes"] + bad + b"\n" + rest
+        if rng.random() < 0.2: rest = None                      # the offending line is the last one and has no newline
+        content = e["bytes"] + bad + (b"\n" + rest if rest is not None else b"")
         s = Scenario([gens.parse_cmd(0, b"/e/bad.conf", content, dl, cm), "dump 0", "groups 0"], tags=(kind,))
         s.want = "rc=%d line=%d file=%s" % (CODES[kind], len(ls) + 1, enc(b"/e/bad.conf"))
         out.append(s)
